@@ -1,5 +1,5 @@
 import BsVerif.Lemmas.Reloc
-import BsVerif.Model.RelocSession
+import BsVerif.Lemmas.RelocSession
 /-!
 # C18 — code is found wherever it is loaded
 
@@ -301,6 +301,99 @@ theorem C18_deferred_activates (pre post : List (Nat → List Nat × Bool)) (e :
     rw [he] at this
     cases this
 
+/-! ## the stored ranges are in address order whenever the mapping table is sane -/
+
+/-- environment: the extents of different registered objects in the mapping table do not overlap and are not empty -/
+def MapsDisjoint (maps : List MapE) (files : List Nat) : Prop :=
+  files.Pairwise (fun f1 f2 => ∀ x1 ∈ regionOf maps f1, ∀ x2 ∈ regionOf maps f2, x1.hi ≤ x2.lo ∨ x2.hi ≤ x1.lo) ∧
+  ∀ f ∈ files, ∀ x ∈ regionOf maps f, x.lo < x.hi
+
+/-- the hypothesis of `C18_find_range` holds for what `update_mappings` stores whenever the kernel's table is sane -/
+theorem C18_ranges_separated (r : Registry) (maps : List MapE) (h : MapsDisjoint maps r.files) :
+    Sep (r.updateMappings false maps).ranges := by
+  unfold Registry.updateMappings
+  simp only [Bool.false_eq_true, if_false]
+  apply sep_sortByLo
+  refine ⟨List.pairwise_filterMap.mpr h.1, ?_⟩
+  intro x hx
+  obtain ⟨f, hf, hr⟩ := List.mem_filterMap.mp hx
+  exact h.2 f hf x (by simpa using hr)
+
+/-- END TO END: for every mapping table in which the registered objects do not overlap, every address inside the extent
+of a registered object is attributed to that object, converts to `address − lowest start of the object` and back. -/
+theorem C18_address_to_object (r : Registry) (maps : List MapE) (h : MapsDisjoint maps r.files) (f : Nat) (x : Range) (a : Nat)
+    (hf : f ∈ r.files) (hr : regionOf maps f = some x) (h1 : x.lo ≤ a) (h2 : a < x.hi) :
+    (r.updateMappings false maps).objOfAddr a = some f ∧
+    (r.updateMappings false maps).intoGlobal a = some (a - x.lo) ∧
+    (r.updateMappings false maps).relocate (a - x.lo) f = some a := by
+  have hsep := C18_ranges_separated r maps h
+  have hx : x ∈ (r.updateMappings false maps).ranges := by
+    unfold Registry.updateMappings
+    simp only [Bool.false_eq_true, if_false, mem_sortByLo, List.mem_filterMap]
+    exact ⟨f, hf, hr⟩
+  have hfr := findRange_complete hsep hx h1 h2
+  have hobj : x.obj = f := (regionOf_some hr).1
+  have hc := ranges_consistent hx
+  have hfiles : (r.updateMappings false maps).files = r.files := rfl
+  refine ⟨?_, ?_, ?_⟩
+  · unfold Registry.objOfAddr
+    simp [hfr, hfiles, hobj, hf]
+  · unfold Registry.intoGlobal Registry.offsetOfAddr
+    simp [hfr, hc]
+  · unfold Registry.relocate
+    rw [← hobj, hc]
+    simp only [Option.map_some]
+    congr 1
+    omega
+
+/-! ## `sharedlib info` = the mapped objects -/
+
+/-- environment (r_debug protocol of ld.so at a consistent state): the link map names exactly the mapped objects other than
+the program, and each of them can be parsed -/
+def LinkMapIsMapped (lm : List Nat) (program : Nat) (maps : List MapE) (parse : Nat → Bool) : Prop :=
+  (∀ f, f ∈ lm ↔ f ≠ program ∧ mapsOf maps f ≠ []) ∧ (∀ f ∈ lm, parse f = true)
+
+/-- `sharedlib info` lists EXACTLY the mapped objects, each with its extent, after any load event at which the loader's
+link map is consistent with the mapping table — whatever the registry held before (stale entries of unloaded libraries,
+entries predicted by ldd that never got loaded, missing entries). -/
+theorem C18_sharedlib_exactly_mapped (r : Registry) (lm : List Nat) (parse : Nat → Bool) (maps : List MapE)
+    (hp : r.program ∈ r.files) (hpm : mapsOf maps r.program ≠ []) (hlm : LinkMapIsMapped lm r.program maps parse) (f : Nat) :
+    ((∃ e, (f, e) ∈ (r.onLoadEvent lm parse maps).dump) ↔ mapsOf maps f ≠ []) ∧
+    (∀ e, (f, e) ∈ (r.onLoadEvent lm parse maps).dump → ∃ x, regionOf maps f = some x ∧ e = some (x.lo, x.hi)) := by
+  have hl := C18_sharedlib_list r lm parse maps
+  have hfiles : f ∈ (r.applyPlan lm parse).files ↔ mapsOf maps f ≠ [] := by
+    rw [C18_reload_plan]
+    constructor
+    · rintro (⟨_, h | h⟩ | ⟨h, _, _⟩)
+      · exact ((hlm.1 f).mp h).2
+      · rw [h]; exact hpm
+      · exact ((hlm.1 f).mp h).2
+    · intro hm
+      by_cases hfp : f = r.program
+      · left; exact ⟨hfp ▸ hp, Or.inr hfp⟩
+      · have hin : f ∈ lm := (hlm.1 f).mpr ⟨hfp, hm⟩
+        by_cases hff : f ∈ r.files
+        · left; exact ⟨hff, Or.inl hin⟩
+        · right; exact ⟨hin, hff, hlm.2 f hin⟩
+  refine ⟨(hl.1 f).trans hfiles, ?_⟩
+  intro e he
+  have hm : mapsOf maps f ≠ [] := hfiles.mp ((hl.1 f).mp ⟨e, he⟩)
+  have hs : (regionOf maps f).isSome := (hl.2.2 f).mpr hm
+  obtain ⟨x, hx⟩ := Option.isSome_iff_exists.mp hs
+  exact ⟨x, hx, by rw [hl.2.1 f e he, hx]; rfl⟩
+
+example : LinkMapIsMapped [1] 0 [⟨0, 1, 2⟩, ⟨1, 3, 4⟩] (fun _ => true) := by
+  refine ⟨fun f => ?_, fun _ _ => rfl⟩
+  by_cases h0 : f = 0
+  · subst h0; decide
+  · by_cases h1 : f = 1
+    · subst h1; decide
+    · have h0' : ¬ 0 = f := fun h => h0 h.symm
+      have h1' : ¬ 1 = f := fun h => h1 h.symm
+      have e0 : (0 == f) = false := by simpa using h0'
+      have e1 : (1 == f) = false := by simpa using h1'
+      simp [mapsOf, List.filter, h0, h1, e0, e1]
+
 /-! ## tests (not theorems) and non-vacuity -/
 
 /-- a PIE executable at 0x555555554000 and a library at 0x7ffff7d61000, as observed on the test machine -/
@@ -319,6 +412,10 @@ def pieReg : Registry := ({ program := 0, files := [0, 1] } : Registry).updateMa
         == { active := [100, 200], deferred := [8] }
 
 example : LoadedAt pieMaps 1 0 0x7ffff7d61000 := by decide
+example : MapsDisjoint pieMaps [0, 1] := by
+  constructor
+  · decide
+  · decide
 example : LoadedAt nopieMaps 0 0x400000 0 := by decide
 example : Sep pieReg.ranges := by
   constructor
@@ -331,3 +428,96 @@ example : ∃ (pre : List (Nat → List Nat × Bool)) (e : Nat → List Nat × B
   ⟨[fun _ => ([], false)], fun _ => ([5], true), { deferred := [3] }, 3, by simp, by simp, rfl, by simp⟩
 
 end BsVerif.Reloc
+
+/-! # session level: breakpoint identity across load addresses (`Model/RelocSession.lean`) -/
+namespace BsVerif.RelocS
+open BsVerif.Reloc
+
+/-- FULL STATEMENT (false of the unchanged code): whatever the program loads and unloads, every breakpoint the registry
+lists as enabled has its INT3 in the process (so the function it guards cannot run without stopping). -/
+def C18_breakpoints_stay_armed_full : Prop :=
+  ∀ (s : St) (nm : List MapE) (ops : List Op), Armed s → Armed (runOps s nm ops).1
+
+/-- it holds for every execution without `dlclose`: loads, `r_brk` events, deferred retries, executed places -/
+theorem C18_breakpoints_stay_armed_partial (s : St) (nm : List MapE) (ops : List Op) (hn : noUnload ops = true)
+    (h : Armed s) : Armed (runOps s nm ops).1 := runOps_armed ops s nm hn h
+
+/-- a library holding a breakpoint is unloaded and loaded again at the same address -/
+def reloadWitness : St :=
+  { maps := [⟨0, 0x1000, 0x2000⟩, ⟨1, 0x5000, 0x6000⟩], active := [⟨0x5010, .user, some 1⟩], patched := [0x5010],
+    refc := [(1, 1)], status := .inProgress, entered := true }
+
+theorem C18_breakpoints_stay_armed_counterexample : ¬ C18_breakpoints_stay_armed_full := by
+  intro h
+  have := h reloadWitness [⟨1, 0x5000, 0x6000⟩] [.unload 1, .load 1] (by decide)
+  revert this
+  decide
+
+/-- Global → Relocated at the entry point: an uninit breakpoint of a registered object lands at global + the object's offset -/
+theorem C18_uninit_global_becomes_relocated (s : St) (g o : Nat) (k : Kind) (ho : s.reg.files.contains o = true) :
+    s.tryInto ⟨.glob g, some o, k⟩ = (s.reg.relocate g o).map (fun a => ⟨a, k, some o⟩) := by
+  have hm : o ∈ s.reg.files := by simpa using ho
+  simp [St.tryInto, hm]
+
+/-- address identity: a breakpoint requested by runtime address before the start is installed at exactly that address -/
+theorem C18_uninit_relocated_keeps_address (s : St) (r : Registry) (b : Bool) (maps : List MapE) (a : Nat) (bp : ABp)
+    (hreg : s.reg = r.updateMappings b maps) (h : s.tryInto ⟨.rel a, none, .user⟩ = some bp) : bp.addr = a := by
+  unfold St.tryInto at h
+  cases hg : s.reg.intoGlobal a with
+  | none => simp [hg] at h
+  | some g =>
+    have hg' := hg
+    rw [hreg] at hg'
+    obtain ⟨x, hf, _, _, hrel⟩ := C18_roundtrip r b maps a g hg'
+    rw [← hreg] at hf hrel
+    simp only [hg, Option.map_some] at h
+    have hobj : s.reg.objOfAddr a = if s.reg.files.contains x.obj then some x.obj else none := by
+      unfold Registry.objOfAddr; rw [hf]; rfl
+    by_cases hc : x.obj ∈ s.reg.files
+    · simp [hobj, hc, hrel] at h
+      rw [← h]
+    · simp [hobj, hc] at h
+
+example : Armed reloadWitness := by decide
+example : noUnload [.load 1, .visit 1 3, .visit 0 0] = true := rfl
+
+/-- FULL STATEMENT (false of the unchanged code): a request recorded while the program is not running is still recorded
+after any further request. -/
+def C18_uninit_requests_kept_full : Prop :=
+  ∀ (s : St) (u1 u2 : UBp), u1 ≠ u2 → u1 ∈ ((s.addUninit u1).addUninit u2).uninit
+
+/-- it holds when the two requests differ in their `Address` (the key of `disabled_breakpoints`) -/
+theorem C18_uninit_requests_kept_partial (s : St) (u1 u2 : UBp) (h : u1.addr ≠ u2.addr) :
+    u1 ∈ ((s.addUninit u1).addUninit u2).uninit := by
+  unfold St.addUninit
+  have hm : u1 ∈ s.uninit.filter (fun x => x.addr != u1.addr) ++ [u1] := by simp
+  have : u1 ∈ (s.uninit.filter (fun x => x.addr != u1.addr) ++ [u1]).filter (fun x => x.addr != u2.addr) :=
+    List.mem_filter.mpr ⟨hm, by simpa using h⟩
+  exact List.mem_append.mpr (Or.inl this)
+
+/-- `c18a_add` of libc18a.so and `c18b_mul` of libc18b.so both have their breakpoint place at ELF address 0xa468:
+the second request replaces the first (the map is keyed by `Address::Global(0xa468)`, the object is not part of the key) -/
+theorem C18_uninit_requests_kept_counterexample : ¬ C18_uninit_requests_kept_full := by
+  intro h
+  have := h {} ⟨.glob 0xa468, some 1, .user⟩ ⟨.glob 0xa468, some 2, .user⟩ (by decide)
+  revert this
+  decide
+
+/-- and a request that is kept is converted at the entry point into a breakpoint at `global + offset of ITS object` -/
+theorem C18_uninit_conversion_uses_own_object (s : St) (g o1 o2 : Nat) (a1 a2 : Nat)
+    (h1 : s.reg.files.contains o1 = true) (h2 : s.reg.files.contains o2 = true)
+    (r1 : s.reg.relocate g o1 = some a1) (r2 : s.reg.relocate g o2 = some a2) :
+    (s.tryInto ⟨.glob g, some o1, .user⟩).map (·.addr) = some a1 ∧ (s.tryInto ⟨.glob g, some o2, .user⟩).map (·.addr) = some a2 := by
+  have m1 : o1 ∈ s.reg.files := by simpa using h1
+  have m2 : o2 ∈ s.reg.files := by simpa using h2
+  simp [St.tryInto, m1, m2, r1, r2]
+
+/-- TIE of the pure deferred-list theorems to the session model that the correspondence run exercises:
+one `r_brk` round of the session model is one `refresh` with "succeeds now" as the attempt. -/
+theorem C18_session_deferred_refines (s : St) :
+    s.refreshDeferred.deferred = (refresh (fun q => ([], setFnOut s q == .active)) ⟨[], s.deferred⟩).deferred := by
+  rw [refreshDeferred_deferred]
+  simp only [refresh]
+  congr 1
+
+end BsVerif.RelocS
